@@ -413,6 +413,15 @@ func (s *stream) wait() {
 }
 
 func (s *stream) Close(closeWithCancel bool) {
+	if s.observers == nil {
+		// already closed: shutdown arrived inside a rebalance window, the pending re-open must not happen
+		if s.rebalanceTimer != nil {
+			s.rebalanceTimer.Stop()
+		}
+
+		return
+	}
+
 	s.closeWithCancel = closeWithCancel
 
 	s.eventHandler.BeforeStreamStop()
